@@ -79,13 +79,14 @@ Proof.
   - intros u. now apply spec_sub_times_in.
 Qed.
 
-(* --- offset and @ (all six query forms): the whole evaluator — offsets set by
+(* --- offset and @ (the six query forms whose evaluation is modelled; for the nested forms QSub2 /
+   QSub2Fn only the statement and the select hints are, see C28_hints_cover): the whole evaluator — offsets set by
    setOffsetForAtModifier, windows of matrixSelector / the Call path, subquery grid and re-basing
    of inner @ selectors in runSubquery — computes the statement at the shifted / fixed time
    [eff T off at] (negative offsets are just negative [off]) *)
 Theorem C28_offset_at : forall c q series,
   sortedb series = true -> above_min series ->
-  wf_query c q = true -> min_guard c q ->
+  wf_query c q = true -> modelled q = true -> min_guard c q ->
   engine_eval c q series = spec_eval c q series.
 Proof. exact engine_eq_spec. Qed.
 
@@ -106,7 +107,9 @@ Proof.
   - cbn [min_guard c_ts]. unfold eff at 1. lia.
 Qed.
 
-(* --- the select hints of getTimeRangesForSelector cover every sample the statement needs ... *)
+(* --- the select hints of getTimeRangesForSelector cover every sample the statement needs; this
+   includes the two-level nested subquery forms (subqueryTimes over the path: offsets and ranges of
+   enclosing subqueries add up, an @ on a subquery discards what was accumulated) ... *)
 Theorem C28_hints_cover : forall c q series,
   wf_query c q = true ->
   spec_eval c q (restrict (hints c q) series) = spec_eval c q series.
@@ -116,7 +119,7 @@ Proof. exact hints_cover. Qed.
    over the full series *)
 Theorem C28_engine_on_storage : forall c q series,
   sortedb series = true -> above_min series ->
-  wf_query c q = true -> min_guard c q ->
+  wf_query c q = true -> modelled q = true -> min_guard c q ->
   engine_on_storage c q series = spec_eval c q series.
 Proof. exact engine_on_storage_spec. Qed.
 
@@ -195,3 +198,14 @@ Example C28_ex_offset_at :
   engine_eval c (QRangeFn FCount 45 (-10) None) ex_series = RVec (Some (mkP 70 KF 3)) /\
   engine_on_storage (mkCfg 1000 10 7) (QInner (IVSel 5 (Some 30))) ex_series = RVec (Some (mkP 1000 KF 3)).
 Proof. split; reflexivity. Qed.
+
+Example C28_ex_nested_hints :
+  (* last_over_time((last_over_time(m[20ms:10ms] @ 0.050))[20ms:10ms] offset 30ms) at 1000: the
+     inner @ pins its window, the outer offset must not shift the hints: [21,50], not [-9,20] *)
+  let c := mkCfg 1000 10 7 in
+  let q := QSub2Fn FLast FLast (IVSel 0 None) 20 10 0 (Some 50) 20 10 30 None in
+  hints c q = (21, 50) /\ wf_query c q = true /\
+  spec_eval c q ex_series = RVec (Some (mkP 1000 KF 6)) /\
+  spec_eval c q (restrict (hints c q) ex_series) = RVec (Some (mkP 1000 KF 6)) /\
+  spec_eval c q (restrict (-9, 20) ex_series) <> spec_eval c q ex_series.
+Proof. repeat split; try reflexivity. vm_compute. discriminate. Qed.
